@@ -479,6 +479,8 @@ class Frame:
             )
         if self._data is None:
             self._data = _BLANK_PIXEL * (self.width * self.height)
+        # The larger image may not have been read from the file yet.
+        larger.load()
         if larger._data is not None:
             _format_funcs.scale_down(filter, larger.width, larger.height, self.width, self.height, larger._data, self._data)
 
@@ -1024,7 +1026,8 @@ class VTF:
                 self._frames[frame_num, depth_side, 0].load()
                 for mipmap in range(1, self.mipmap_count):
                     frm = self._frames[frame_num, depth_side, mipmap]
-                    if frm._data is None:
+                    # Only regenerate cleared frames, not ones still waiting to be read from the file.
+                    if frm._data is None and frm._fileinfo is None:
                         frm.rescale_from(
                             self._frames[frame_num, depth_side, mipmap - 1],
                             filter,
